@@ -51,6 +51,20 @@ var slotRows = []slotRow{
     b[1] = true;
     let c = "[1, 0]".parse_json() as [bool];
     println(b, c);`, "[9.5, 2] [1, 2]\n[true, true] [true, false]\n"},
+	// the dynamic value is a CONSTANT expression (a literal cast to a type that contains any): the crossing validates it all the same
+	{"constant-source-wrong-scalar", `try { let x: str = 1 as any; println("ADMITTED", x.len()); } catch e { println("refused"); }
+    try { let y: int = "s" as any; println("ADMITTED", y + 1); } catch e { println("refused"); }
+    let z: int = 5 as any; println(z + 1);`, "refused\nrefused\n6\n"},
+	{"constant-source-wrong-element", `try { let l: [str] = [1, 2] as any; println("ADMITTED", l[0].len()); } catch e { println("refused"); }
+    try { let o: { a: int, b: str } = new { a: 1 } as any; println("ADMITTED", o.b.len()); } catch e { println("refused"); }
+    try { let p: { a: str } = new { a: 1 } as any; println("ADMITTED", p.a.len()); } catch e { println("refused"); }
+    let ok: [int] = [1, 2] as any; println(ok[1] + 1);`, "refused\nrefused\nrefused\n3\n"},
+	{"constant-source-converted", `let ys: [?int] = [1, 2] as any;
+    println(ys[0].is_some(), ys[1].unwrap() + 1);
+    let q: ?str = "s" as any;
+    println(q.unwrap().len());
+    let ao: { ? } = new { k: 1 } as any;
+    println(ao.get("k").is_some());`, "true 3\n1\ntrue\n"},
 	{"repeated-crossing-in-a-loop", `let seen: [bool] = [];
     for i in 0..4 {
         let v = "[null, null]".parse_json() as [?int];
